@@ -5,6 +5,8 @@
 # e.g. while other checks run against /repo; the harness imports kfac from $KFAC_REPO)
 cd /verif
 R=${KFAC_REPO:-/repo}
+# a sweep against a scratch tree must not overwrite the committed evidence
+if [ "$R" != "/repo" ]; then export VERIF_OUT_DIR=${VERIF_OUT_DIR:-/tmp/verif_sweep_out}; mkdir -p $VERIF_OUT_DIR; fi
 git -C $R diff --quiet || { echo "$R has local changes; aborting"; exit 2; }
 fail=0
 touched=""
